@@ -9,7 +9,9 @@
 //!   S = the real Server::handle on a loopback connection (framing of the request body: cl | chunked;
 //!       variant: count = handler reads the body in 8 KiB pieces, ignore = handler answers without reading,
 //!       sniff = handler reads 100 bytes, echo = handler streams a response body of the same length from a reader (auto framing),
-//!       echocl / echochunked = the same with declared length / declared chunked)
+//!       echocl / echochunked = the same with declared length / declared chunked,
+//!       stall = the handler sets a 200 ms read timeout and answers 408 when a read fails; the client pauses 600 ms after the first
+//!       60 000 bytes and then sends the rest without a gap: the connection is closed, nothing of the rest is collected)
 //! impl: per length `<len>:<peak bytes>:<allocations>:<ok>` separated by spaces
 use crate::util::*;
 use crate::Ctx;
@@ -86,6 +88,15 @@ fn mem_server() -> khttp::Server {
         let n = count_body(req.body())?;
         res.ok(&Headers::new_nodate(), n.to_string().as_bytes())
     });
+    // the handler puts a 200 ms read timeout on the connection; when a read of the body fails it answers 408 and returns Ok
+    // (the rest of the body cannot be discarded: the connection is closed after the answer, whatever the client still sends)
+    b.route(Method::Post, "/stall", |mut req, res| {
+        let _ = req.get_stream().set_read_timeout(Some(std::time::Duration::from_millis(200)));
+        match count_body(req.body()) {
+            Ok(n) => res.ok(&Headers::new_nodate(), n.to_string().as_bytes()),
+            Err(_) => res.send(&Status::of(408), &Headers::new_nodate(), &b"timed out"[..]),
+        }
+    });
     b.route(Method::Post, "/ignore", |_req, res| res.ok(&Headers::new_nodate(), b"ignored"));
     b.route(Method::Post, "/sniff", |mut req, res| {
         let mut first = [0u8; 100];
@@ -114,6 +125,7 @@ fn client_exchange(c: &mut std::net::TcpStream, path: &str, framing: &str, len: 
     c.write_all(head.as_bytes()).map_err(|e| e.to_string())?;
     // writer and reader run in turns on one thread would deadlock on large bodies: read in a second thread
     let mut rc = c.try_clone().map_err(|e| e.to_string())?;
+    let stall = path == "/stall";
     let rd = std::thread::spawn(move || -> Result<u64, String> {
         crate::MUTED.with(|m| m.set(true));
         // de-frame incrementally with constant memory: find the head, then count the body
@@ -131,6 +143,7 @@ fn client_exchange(c: &mut std::net::TcpStream, path: &str, framing: &str, len: 
                 headbuf.extend_from_slice(data);
                 if let Some(p) = headbuf.windows(4).position(|w| w == b"\r\n\r\n") {
                     let h = String::from_utf8_lossy(&headbuf[..p]).to_ascii_lowercase();
+                    if h.starts_with("http/1.1 408") && stall { return Ok(0); }
                     if !h.starts_with("http/1.1 200") { return Err(format!("status: {}", h.lines().next().unwrap_or(""))); }
                     chunked = h.contains("transfer-encoding: chunked");
                     in_body = true;
@@ -162,9 +175,13 @@ fn client_exchange(c: &mut std::net::TcpStream, path: &str, framing: &str, len: 
         };
         if let Err(e) = r { werr = Some(e.to_string()); break; }
         left -= n as u64;
+        // stall: one pause of 600 ms (three read timeouts of the handler) after the first piece, then the rest without a gap
+        if stall && left + n as u64 == len { std::thread::sleep(std::time::Duration::from_millis(600)); }
     }
     if werr.is_none() && framing != "cl" { let _ = c.write_all(b"0\r\n\r\n"); }
     let r = rd.join().map_err(|_| "reader panic".to_string())?;
+    // (stall: the server has answered 408 and closed; that the rest of the upload could not be written is expected)
+    if stall { return r; }
     if let Some(e) = werr { return Err(format!("write: {e}")); }
     r
 }
@@ -324,7 +341,7 @@ pub fn gen(ctx: &Ctx) {
         out.emit(&case, &r, "S/bighead", true);
     }
     for fr in ["cl", "chunked"] {
-        for v in ["count", "ignore", "sniff", "echo", "echocl", "echochunked", "echo10", "count10"] {
+        for v in ["count", "ignore", "sniff", "echo", "echocl", "echochunked", "echo10", "count10", "stall"] {
             if fr == "chunked" && v.ends_with("10") { continue; }
             let case = format!("S {fr} {v} {}", ls(if ctx.thorough { 1 << 28 } else { 1 << 24 }));
             let r = run(&case);
